@@ -26,14 +26,16 @@ def cross(a, b):
 def vcs(B):
     B.unit('src/transform/estimation/FindRigidTransformationByLeastSquares.cpp')
     B.unit('src/regression/leastsquares/LeastSquares.cpp')
+    B.unit('src/pointset/algorithms/PreconditionedPointSet.cpp')
     P = 'romea::core::FindRigidTransformationByLeastSquares<Eigen::Matrix<double, 3, 1, 0>>'
     B.prog.options['dyn_shapes'] = {'LeastSquares_double': {'Ac_': (6, 6), 'Bc_': (6, 1), 'J_': (M, 6), 'Y_': (M, 1), 'W_': (M, 1), 'JtJ_': (6, 6), 'inverseJtJ_': (6, 6), 'JtY_': (6, 1)}}
-    B.prog.options['dyn_locals'] = {'J': (M, 6), 'Y': (M, 1)}
-    B.prog.options['opaque_calls'] = {'setDataSize', 'estimateUsingSVD'}
+    B.prog.options['dyn_locals'] = {'J': (M, 6), 'Y': (M, 1), 'Ac': (6, 6)}
+    B.prog.options['opaque_calls'] = {'setDataSize', 'estimateUsingSVD', 'setPreconditionner'}
     B.prog.options['const_names'] = {'CARTESIAN_DIM': 3}      # PointTraits<Eigen::Vector3d>::DIM (stated assumption: not read from the AST)
     B.prog.options['dyn_returns'] = {'estimateUsingSVD': (6, 1), 'getJ': (M, 6), 'getY': (M, 1)}
     B.function('P2P3__estimate_corr', P, 'estimate_', nparams=4)
     B.function('P2P3__estimate_aligned', P, 'estimate_', nparams=3)
+    B.function('P2P3__setPreconditioner', P, 'setPreconditioner')
     B.extract()
     S = [B.vec('s%d' % k, 3) for k in range(NPTS)]
     Q = [B.vec('q%d' % k, 3) for k in range(NPTS)]
@@ -74,3 +76,41 @@ def vcs(B):
     cor = Cell({'size': str(len(corr)), 'data': [{'sourcePointIndex': str(a), 'targetPointIndex': str(b)} for a, b in corr]})
     check('with_correspondences', 'P2P3__estimate_corr', corr, [cor])
     check('aligned', 'P2P3__estimate_aligned', [(0, 0), (1, 1)], [])
+
+    # setPreconditioner(source, target): whatever the estimator was configured with before, the solver's preconditioner is (re)set to
+    # diag(1/scale, 1/scale, 1/scale, 1, 1, 1) with scale = target preconditioning matrix (0,0) - also for scale 1
+    pps = [r for r in B.prog.records if r.startswith('PreconditionedPointSet')]
+    if len(pps) != 1:
+        from front import ExtractError
+        raise ExtractError('C05 spec: expected one PreconditionedPointSet record, got %r' % (pps,))
+    srcp = B.sx.arbitrary_value(('struct', pps[0]), 'pp_src')
+    tgtp = B.sx.arbitrary_value(('struct', pps[0]), 'pp_tgt')
+    mats = [k for k, v in tgtp.items() if isinstance(v, list) and len(v) == 16]
+    if len(mats) != 1:
+        from front import ExtractError
+        raise ExtractError('C05 spec: PreconditionedPointSet no longer has exactly one 4x4 matrix member')
+    scale = tgtp[mats[0]][0]
+    given = []
+
+    def val(c):
+        if isinstance(c, Cell):
+            return c.v
+        if hasattr(c, 'container') and hasattr(c, 'key'):
+            return c.container[c.key]
+        return c
+    B.overrides['LeastSquares_double__setPreconditionner'] = lambda args: (given.append(val(args[1])), '0')[1]
+    names = [f for f in B.prog.cname_of_id.values() if 'setPreconditionner' in f]
+    for nm in names:
+        B.overrides[nm] = B.overrides['LeastSquares_double__setPreconditionner']
+    obj = B.sx.arbitrary_value(('struct', REC), 'p2p_prior_precond')
+    B.call('P2P3__setPreconditioner', obj, srcp, tgtp)
+    obl = B.take_obligations()
+    fl = ['P2P3__setPreconditioner']
+    nz = [app('not', app('=', scale, '0.0'))]
+    B.vc('setPreconditioner.solver_preconditioner_is_set_exactly_once_whatever_the_scale', app('=', str(len(given)), '1'), functions=fl, bounded=BOUND)
+    if given:
+        Acv = given[0]
+        for i in range(6):
+            for j in range(6):
+                want = ('1.0' if i >= 3 else app('/', '1.0', scale)) if i == j else '0.0'
+                B.vc('setPreconditioner.matrix[%d,%d].is_the_inverse_scale_on_the_translation_block_and_identity_elsewhere' % (i, j), app('=', Acv[6 * i + j], want), nz, functions=fl, bounded=BOUND)
